@@ -756,16 +756,27 @@ fn parse_report(text: &str, n_jobs: usize, n_batch: usize, want_alone: bool) -> 
 
 /// run the work in a forked child: `secs` alarm, 6 GiB address space (16 worker threads reserve a lot)
 fn forked(fx: &Fixture, batch: &[Value], jobs: &[Job], want_alone: bool, secs: u32) -> Report {
+    for attempt in 0..5 {
+        if let Some(r) = forked_once(fx, batch, jobs, want_alone, secs) {
+            return r;
+        }
+        // pipe() or fork() failed (process table full on a loaded machine): wait and try again
+        std::thread::sleep(std::time::Duration::from_millis(500 * (attempt + 1)));
+    }
+    parse_report("", jobs.len(), batch.len(), want_alone)
+}
+
+fn forked_once(fx: &Fixture, batch: &[Value], jobs: &[Job], want_alone: bool, secs: u32) -> Option<Report> {
     unsafe {
         let mut fds = [0i32; 2];
         if libc::pipe(fds.as_mut_ptr()) != 0 {
-            return parse_report("", jobs.len(), batch.len(), want_alone);
+            return None;
         }
         let pid = libc::fork();
         if pid < 0 {
             libc::close(fds[0]);
             libc::close(fds[1]);
-            return parse_report("", jobs.len(), batch.len(), want_alone);
+            return None;
         }
         if pid == 0 {
             libc::close(fds[0]);
@@ -806,7 +817,7 @@ fn forked(fx: &Fixture, batch: &[Value], jobs: &[Job], want_alone: bool, secs: u
         let mut status = 0i32;
         libc::waitpid(pid, &mut status, 0);
         let text = String::from_utf8_lossy(&buf).to_string();
-        parse_report(&text, jobs.len(), batch.len(), want_alone)
+        Some(parse_report(&text, jobs.len(), batch.len(), want_alone))
     }
 }
 
@@ -1434,9 +1445,12 @@ fn run_case(ctx: &mut Ctx, fx: &Fixture, persist_cfg: bool, gens: &[GenQ], plans
     let dead_so_far = DEAD_CHILDREN.load(std::sync::atomic::Ordering::Relaxed);
     let secs = if dead_so_far >= 4 && gens.iter().any(|g| g.danger.is_some()) { 2 } else { secs };
     let mut rep = forked(fx, &batch, &jobs, true, secs);
-    if !rep.complete {
-        // a loaded machine must not turn into a finding: once more, with six times the limit
+    let suspicious = |r: &Report| !r.complete || r.jobs.iter().chain(r.alone.iter()).chain(r.alone_discard.iter()).any(|o| matches!(o, RunOut::Panic | RunOut::Dead));
+    if suspicious(&rep) {
+        // a loaded machine (alarm, fork or thread creation failing) must not turn into a finding: a defect of the
+        // code is deterministic and shows again; once more, with six times the limit
         ctx.count("child_retried");
+        std::thread::sleep(std::time::Duration::from_millis(200));
         rep = forked(fx, &batch, &jobs, true, secs * 6);
     }
     if !rep.complete {
